@@ -71,6 +71,24 @@ def exact(term):
     return z3.substitute_funs(term, (_MUL, v0 * v1), (_DIV, v0 / v1))
 
 
+def _vars(t, _cache={}):
+    """Free constants of a term (ids)."""
+    out = set()
+    seen = set()
+    stack = [t]
+    while stack:
+        e = stack.pop()
+        i = e.get_id()
+        if i in seen:
+            continue
+        seen.add(i)
+        if z3.is_const(e) and e.decl().kind() == z3.Z3_OP_UNINTERPRETED:
+            out.add(i)
+        else:
+            stack.extend(e.children())
+    return out
+
+
 def zabs(t):
     return z3.If(t >= 0, t, -t)
 
@@ -300,6 +318,7 @@ class Stats:
         self.refined_sat = 0
         self.refined_unknown = 0
         self.retried = 0
+        self.sliced_unsat = 0
         self.cvc5_unsat = 0
         self.solver_s = 0.0
         self.rlimit_spent = 0
@@ -553,16 +572,30 @@ class Explorer:
             self.stats.solver_s += time.time() - t
 
     def _refine(self, neg, extra=()):
-        """UF said sat/unknown: re-pose with true * and /."""
+        """UF said sat/unknown: re-pose with true * and /.  First on a *slice* of the path condition (only the
+        conjuncts that share a variable with the goal -- dropping hypotheses is sound for 'unsat'), then in full."""
+        t = time.time()
+        full = [exact(a) for a in self.solver.assertions()] + [exact(e) for e in extra]
+        goal = exact(neg)
+        gv = _vars(goal)
+        sliced = [a for a in full if _vars(a) & gv]
+        r = z3.unknown
+        if len(sliced) < len(full):
+            s = z3.Solver()
+            s.set("rlimit", self.refine_rlimit // 4)
+            s.set("timeout", TIMEOUT_MS // 4)
+            s.add(*sliced)
+            s.add(goal)
+            if s.check() == z3.unsat:
+                self.stats.solver_s += time.time() - t
+                self.stats.refined_unsat += 1
+                self.stats.sliced_unsat += 1
+                return "unsat", None
         s = z3.Solver()
         s.set("rlimit", self.refine_rlimit)
         s.set("timeout", TIMEOUT_MS)
-        for a in self.solver.assertions():
-            s.add(exact(a))
-        s.add(exact(neg))
-        for e in extra:
-            s.add(exact(e))
-        t = time.time()
+        s.add(*full)
+        s.add(goal)
         r = s.check()
         self.stats.solver_s += time.time() - t
         if r == z3.unsat:
